@@ -9,11 +9,15 @@ _CHK = ("checked on to_analysed(Bytecode::new_legacy(code)): LegacyAnalyzed, ori
         "ever marked), no panic / out-of-bounds access; oracle: Yellow Paper 9.4.3 walk with literal opcodes 0x5b, 0x60..0x7f")
 _ALL = "ALL byte strings of CONCRETE length L = {n} (symbolic opcodes, symbolic walk); " + _CHK
 _SHAPE = "ONE code shape with CONCRETE opcode positions ({shape}) and ALL immediate-data bytes symbolic; " + _CHK
+_OPS = "ONE fully CONCRETE code string ({shape}); " + _CHK
 _K = lambda h, bound, t, **kw: dict(crate="kinterp", harness="c04::" + h, bounded=True, bound=bound, timeout=t, mem_gb=12, **kw)
 _KANI = [
     # quick tier: the shape that separates "JUMPDEST hidden in push data" from a real one, with the two opcodes adjacent to
     # the PUSH range as real instructions (112 s on the idle machine, 400-500 s at load average 50)
     _K("shape_push1_data", _SHAPE.format(shape="PUSH0 DUP1 PUSH1 d JUMPDEST, L = 5"), 1200),
+    # quick tier: two EOF-only opcodes that carry immediates in EOF containers (RJUMP: 2 bytes, RJUMPV: 1) are ONE byte long
+    # in legacy code -- the JUMPDESTs directly behind them are destinations (independent seed C04-1)
+    _K("shape_eof_imm_quick", _OPS.format(shape="RJUMP JD JD RJUMPV JD JD, L = 6"), 1200),
     # thorough tier
     _K("table_len0", _ALL.format(n=0), 900, thorough_only=True),                                               # 149 s
     _K("shape_trunc_push32", _SHAPE.format(shape="JUMPDEST PUSH32 truncated by the end of code, L = 2"), 1200, thorough_only=True),  # 345-589 s
